@@ -29,6 +29,7 @@ ItemAt(g) ==
   IF g <= O1 THEN MagicAt(g)
   ELSE IF g <= O2 THEN LenAt(g - O1)
   ELSE FirstAt(g - O2)
+Histories == 0
 VARIABLE n
 INSTANCE GenBase
 =============================================================================
